@@ -71,7 +71,7 @@ func resultsOf(in *Interp, fn *ssa.Function, vals ...Val) Val {
 }
 
 func registerCryptoStubs(cfg *Config) {
-	cfg.extra = append(cfg.extra, cryptoStub)
+	cfg.extra = append(cfg.extra, algebraStub, cryptoStub)
 }
 
 func hashSize(in *Interp, rn *types.Named) int {
@@ -244,6 +244,73 @@ func cryptoStub(in *Interp, fn *ssa.Function, pkg, name string) StubFn {
 					return TupleV{in.fresh("bytesWritten", BVSort(64)), in.errOrNil("Vector.WriteTo")}
 				}
 				return TupleV{in.freshBytes(4, "vecbytes"), in.errOrNil("Vector." + name)}
+			}
+		}
+	}
+	// ---- integer compression (third-party intcomp behind internal/backend/ioutils): abstract
+	// lossless, self-delimiting codec - the encoder leaves a one-byte handle in the stream, the
+	// decoder returns the recorded list
+	if pkg == "github.com/consensys/gnark/internal/backend/ioutils" && rn == nil {
+		writeHandle := func(in *Interp, w Val, id int) {
+			iv := w.(IfaceV)
+			if iv.T == nil {
+				in.progPanic("nil writer")
+			}
+			ms := in.prog.MethodSets.MethodSet(iv.T)
+			var sel *types.Selection
+			for i := 0; i < ms.Len(); i++ {
+				if ms.At(i).Obj().Name() == "Write" {
+					sel = ms.At(i)
+				}
+			}
+			if sel == nil {
+				panic(abort("unmodelled", "writer without Write"))
+			}
+			b := in.makeSlice(types.Typ[types.Uint8], 1, 1)
+			b.Obj.V.(*ArrayV).E[0] = BVConst(uint64(id), 8)
+			in.call(FuncV{Fn: in.prog.MethodValue(sel)}, []Val{iv.V, b}, nil)
+		}
+		record := func(in *Interp, sl SliceV) int {
+			vals := make([]Val, sl.Len)
+			for i := range vals {
+				vals[i] = in.sliceGet(sl, i)
+			}
+			in.codecStore = append(in.codecStore, vals)
+			return len(in.codecStore) - 1
+		}
+		fetch := func(in *Interp, src SliceV, et types.Type) SliceV {
+			if src.Len == 0 {
+				in.progPanic("index out of range [0] with length 0 (decompress on empty input)")
+			}
+			h := in.sliceGet(src, 0).(*Term)
+			if !h.IsConst || int(h.C) >= len(in.codecStore) {
+				panic(abort("unmodelled", "abstract integer codec: decoding bytes that no encoder call produced"))
+			}
+			vals := in.codecStore[h.C]
+			out := in.makeSlice(et, len(vals), len(vals))
+			for i, v := range vals {
+				out.Obj.V.(*ArrayV).E[i] = v
+			}
+			return out
+		}
+		switch name {
+		case "CompressAndWriteUints32":
+			return func(in *Interp, fn *ssa.Function, a []Val) Val {
+				writeHandle(in, a[0], record(in, a[1].(SliceV)))
+				return TupleV{a[2], IfaceV{}}
+			}
+		case "CompressAndWriteUints64":
+			return func(in *Interp, fn *ssa.Function, a []Val) Val {
+				writeHandle(in, a[0], record(in, a[1].(SliceV)))
+				return IfaceV{}
+			}
+		case "ReadAndDecompressUints32":
+			return func(in *Interp, fn *ssa.Function, a []Val) Val {
+				return TupleV{a[1], BVConst(1, 64), fetch(in, a[0].(SliceV), types.Typ[types.Uint32]), IfaceV{}}
+			}
+		case "ReadAndDecompressUints64":
+			return func(in *Interp, fn *ssa.Function, a []Val) Val {
+				return TupleV{BVConst(1, 64), fetch(in, a[0].(SliceV), types.Typ[types.Uint64]), IfaceV{}}
 			}
 		}
 	}
